@@ -520,6 +520,112 @@ def build():
     return C
 
 
+def reentrant_timed_set():
+    """a hold-time handler may itself register a hold-time handler for the same switch (handler registration times are
+    arbitrary - also 'while the due handlers are being called'): afterwards exactly ONE wake-up is armed and recorded for the
+    switch, at the earliest pending deadline; a wake-up armed by the callback on the way is not left behind un-recorded (it
+    would fire on a missing record: KeyError, the machine stops)"""
+    C = ContractSet("C03r", "hold-time handlers that register hold-time handlers")
+    C.strings = False
+    C.cls("MpfController", fields={})
+    C.cls("Loop", fields={})
+
+    def call_at(I, env, a, k):
+        h = VOpaque("TimerHandle", z3.Const(I.fresh_name("timer"), usort("TimerHandle")))
+        emit(I, "call_at", when=a[0], callback=a[1], handle=h)
+        return h
+    C.ext("Loop.call_at", model=call_at, trusted_reason="asyncio loop.call_at (A-ASYNCIO): fires once, not before its time")
+    C.cls("ClockBase", fields=dict(now=Real, loop=ObjS("Loop")))
+    C.ext("ClockBase.get_time", model=lambda I, env, a, k: I.read_field(env["self"].ref, "now"), trusted_reason="loop clock")
+    C.ext("ClockBase.unschedule", model=lambda I, env, a, k: (emit(I, "unschedule", handle=a[0]), NONE)[1],
+          trusted_reason="cancels a timer handle")
+    C.cls("EventMgr", fields={})
+    C.ext("EventMgr.process_event_queue", model=lambda I, env, a, k: (emit(I, "drain"), NONE)[1],
+          trusted_reason="event queue drain (C01)")
+    C.globals["partial"] = VFn("builtin", name="partial")
+    C.cls("SwitchI", fields=dict(name=Str))
+
+    def deadlines(I, name):
+        """one deadline is due (its handler will register another hold-time handler), 0..1 further deadlines pending"""
+        sw = I.force(I.frames[0].env["switch"]).ref
+        ents = []
+        for j in range(1 + I.ctx.fork(2)):
+            t = VReal(z3.Real("%s.deadline%d" % (name, j)))
+            ents.append((t, I.new_list([VTuple([VOpaque("Fn", z3.Const("%s.cb%d" % (name, j), usort("Fn"))),
+                                                VInt(1), VReal(z3.Real("%s.ms%d" % (name, j)))],
+                                               ntname="TimedSwitchHandler", fields=("callback", "state", "ms"))],
+                                   "%s[t%d]" % (name, j))))
+        this = I.frames[0].env["self"].ref
+        now = I.force(I.read_field(I.force(I.read_field(I.force(I.read_field(this, "machine")).ref, "clock")).ref, "now")).t
+        I.ctx.assume(z3.And(ents[0][0].t > 0, ents[0][0].t <= now))
+        if len(ents) > 1:
+            I.ctx.assume(z3.And(ents[1][0].t > now, ents[1][0].t != ents[0][0].t))
+        I.__dict__["c03_due_cb"] = I.force(I.container(I.force(ents[0][1]).ref).items[0]).items[0]
+        return I.new_dict([(VObj(sw), I.new_dict(ents, name + "[sw]"))], name)
+
+    def delay_entry(I, name):
+        sw = I.force(I.frames[0].env["switch"]).ref
+        return I.new_dict([(VObj(sw), VTuple([VOpaque("TimerHandle", z3.Const("fired_timer", usort("TimerHandle"))),
+                                             VReal(z3.Real("fired_timer_time"))]))], name)
+    C.cls("SwitchController", file="mpf/core/switch_controller.py", bases=["MpfController"], check_bases=False,
+          fields=dict(_active_timed_switches=Init(deadlines), _timed_switch_handler_delay=Init(delay_entry),
+                      _debug_to_console=Bool, _debug_to_file=Bool,
+                      machine=ObjS("MachineController", clock=ObjS("ClockBase"), events=ObjS("EventMgr"))))
+
+    def on_call(I, fn, a, k):
+        """the due handler registers one more hold-time handler for the same switch, with a deadline that is still ahead
+        (add_switch_handler_obj -> _add_timed_switch_handler, the real function)"""
+        emit(I, "callback", fn=fn)
+        due = I.__dict__.get("c03_due_cb")
+        if due is None or not I.force(fn).t.eq(I.force(due).t) or I.__dict__.get("c03_reentered"):
+            return NONE
+        I.__dict__["c03_reentered"] = True
+        this = I.frames[0].env["self"]
+        sw = I.frames[0].env["switch"]
+        now = I.force(I.read_field(I.force(I.read_field(I.force(I.read_field(this.ref, "machine")).ref, "clock")).ref, "now")).t
+        t_new = z3.Real("new_deadline")
+        I.ctx.assume(t_new > now)
+        h = VTuple([VOpaque("Fn", z3.Const("new_cb", usort("Fn"))), VInt(1), VReal(z3.Real("new_ms"))],
+                   ntname="TimedSwitchHandler", fields=("callback", "state", "ms"))
+        I.call(I.getattr(this, "_add_timed_switch_handler", None), [sw, VReal(t_new), h], {})
+        return NONE
+    C.helpers["on_opaque_call"] = on_call
+
+    def one_live_wakeup(I):
+        this = I.frames[0].env["self"].ref
+        sw = I.force(I.frames[0].env["switch"]).ref
+        outer = I.container(I.force(I.read_field(this, "_active_timed_switches")).ref)
+        inner_v = outer.get(VObj(sw))
+        rest = [t for t, _ in I.container(I.force(inner_v).ref).entries] if inner_v is not None else []
+        armed = [e for e in I.cur_trace() if e.name == "call_at"]
+        cancelled = [I.force(e.args["handle"]).t for e in I.cur_trace() if e.name == "unschedule"]
+        live = [e for e in armed if not any(I.force(e.args["handle"]).t.eq(c) for c in cancelled)]
+        dl = I.container(I.force(I.read_field(this, "_timed_switch_handler_delay")).ref).get(VObj(sw))
+        if not rest:
+            return VBool(not live and dl is None)
+        if len(live) != 1 or dl is None:
+            return VBool(False)
+        rem = I.force(dl)
+        when = I.force(live[0].args["when"])
+        # not later than the earliest pending deadline (a wake-up that comes early finds nothing due and re-arms itself)
+        return VBool(z3.And(I.eq(rem.items[0], live[0].args["handle"]), I.eq(rem.items[1], when),
+                            *[when.t <= t.t for t in rest]))
+    C.helpers["one_live_wakeup"] = one_live_wakeup
+    C.finite_checks.append(common.native_demo_check(
+        "c03_timed_handler_registers_timed_handler.py",
+        "a hold-time handler that registers another hold-time handler: each fires once at its time, nothing crashes later"))
+    C.trace_helpers = {"one_live_wakeup"}
+    C.fn("SwitchController._process_active_timed_switches", params=dict(switch=ObjS("SwitchI")),
+         loops={0: LoopSpec(invariant=[], unroll=True), 1: LoopSpec(invariant=[], unroll=True)},
+         ensures=[("H3: also when a due handler registers another hold-time handler for the same switch: afterwards exactly "
+                   "ONE wake-up is live for the switch, it is the recorded one, and it comes no later than the earliest "
+                   "pending deadline - no wake-up armed on the way is left un-recorded", "one_live_wakeup()")],
+         modifies=["self._active_timed_switches.**", "self._timed_switch_handler_delay",
+                   "self._timed_switch_handler_delay.**"], raises={},
+         bounded="BOUNDED: one due deadline whose handler registers one further deadline; 0..1 other pending deadlines")
+    return C
+
+
 def timed_add_set(pid="C03t"):
     """SwitchController._add_timed_switch_handler: the hold-time bookkeeping when a handler's deadline is recorded.
     Whatever deadlines are already pending, afterwards ONE wake-up is armed, for the earliest pending deadline, and
@@ -908,4 +1014,4 @@ def key_removal_set(pid="C03k"):
 
 
 def build_extra():
-    return [timed_add_set(), switch_events_set(), bcp_switch_set(), key_removal_set()]
+    return [timed_add_set(), switch_events_set(), bcp_switch_set(), key_removal_set(), reentrant_timed_set()]
